@@ -1,6 +1,6 @@
 (* C03 - text exposition parses back to exactly the exposed time series.   (layered: see DESIGN.md 7/C03)
    Statements only.  Models: model/Expo.v (exposition), model/TextParser.v (parser). *)
-From V Require Import lib.PyBase lib.PyStr model.Validation model.Expo model.TextParser proofs.EscapeProofs.
+From V Require Import lib.PyBase lib.PyStr model.Validation model.Expo model.TextParser proofs.EscapeProofs proofs.LabelRoundTrip.
 Open Scope N_scope.
 
 (* L1: the parser's unescaping inverts the exposition's escaping, for every string *)
@@ -11,3 +11,29 @@ Print Assumptions C03_L1_unescape_escape.
 Theorem C03_L1_help_unescape_escape : forall s, replace_help_escaping (help_escape_chain s) = s.
 Proof. exact (fun s => eq_trans (f_equal replace_help_escaping (help_escape_chain_eq s)) (help_unescape_escape s)). Qed.
 Print Assumptions C03_L1_help_unescape_escape.
+
+(* L2: a quoted, escaped string is skipped as a whole by the quote-aware scanner, whatever it contains *)
+Theorem C03_L2_quoted_scan : forall chs v rest, mem_char DQ chs = false ->
+  ScanFacts.nuq0 chs (quote (escape v) ++ rest) false false
+  = option_map (fun k => (length (quote (escape v)) + k)%nat) (ScanFacts.nuq0 chs rest false false)
+  /\ ScanFacts.st_after (quote (escape v)) false false = (false, false).
+Proof. exact quoted_scan. Qed.
+Print Assumptions C03_L2_quoted_scan.
+
+(* L3: the label block both expositions write - names bare when legacy, quoted and escaped otherwise, values
+   quoted and escaped, sorted, comma-separated - is read back by parse_labels exactly and in order, for ALL label
+   names and values (keys distinct, not reserved '__...', as the constructors guarantee) *)
+Theorem C03_L3_labels_roundtrip : forall labels,
+  Forall key_ok (map fst labels) -> NoDup (map fst labels) ->
+  parse_labels false true (labelstr labels) false = Ok (sort_kv labels).
+Proof. exact labelstr_roundtrip. Qed.
+Print Assumptions C03_L3_labels_roundtrip.
+
+Example C03_L3_nonvacuous :
+  let labels := [([LF; DQ; BS], [DQ; BS; LF; COMMA; RBRACE; EQS]); (s2l "le", s2l "+Inf")] in
+  Forall key_ok (map fst labels) /\ NoDup (map fst labels) /\
+  parse_labels false true (labelstr labels) false = Ok (sort_kv labels).
+Proof.
+  cbv zeta. split; [repeat constructor|]. split; [|vm_compute; reflexivity].
+  constructor; [intros [H|[]]; discriminate|]. constructor; [intros []|constructor].
+Qed.
